@@ -1,0 +1,169 @@
+//! Observation hooks for external runtime monitors (cargo feature `verif`, off by default).
+//!
+//! Nothing in here changes a result: the functions only count, log and read.
+//! State is thread-local (the interpreter is single threaded, one runtime per thread).
+use std::cell::RefCell;
+
+#[derive(Debug, Clone, Default)]
+pub struct Counters {
+    /// user-function calls that began (counted before the call limit is consulted)
+    pub ud_calls: u64,
+    /// tail-call trampoline iterations
+    pub tail_iters: u64,
+    /// longest run of consecutive tail iterations inside one call
+    pub max_tail_run: u64,
+    /// frames that were entered (passed the depth check)
+    pub frames: u64,
+    /// largest height of an entered frame (top level calls have height 1)
+    pub max_height: usize,
+    /// frames rejected by the depth check
+    pub depth_rejections: u64,
+    pub allocs_ok: u64,
+    pub allocs_failed: u64,
+    pub deallocs: u64,
+    /// highest accounted total seen right after a successful allocation
+    pub peak_bytes: usize,
+    /// highest accounted total seen at all (including the failed allocation)
+    pub peak_bytes_incl_failed: usize,
+    /// shadow ledger: live managed objects and the sum of their recorded sizes
+    pub live_objects: i64,
+    pub live_bytes: i128,
+    pub perm_granted: u64,
+    pub perm_denied: u64,
+}
+
+#[derive(Debug, Clone)]
+pub enum Event {
+    UdCall,
+    TailIter(u64),
+    Frame(usize),
+    DepthReject(usize),
+    Alloc { bytes: usize, total: usize, ok: bool },
+    Dealloc { bytes: usize },
+    Perm { id: &'static str, granted: bool },
+}
+
+struct State {
+    counters: Counters,
+    log: Vec<Event>,
+    log_cap: usize,
+    dropped: u64,
+}
+
+thread_local! {
+    static STATE: RefCell<State> = RefCell::new(State{counters: Counters::default(), log: Vec::new(), log_cap: 0, dropped: 0});
+}
+
+fn with<Rv>(f: impl FnOnce(&mut State) -> Rv) -> Rv {
+    STATE.with(|s| f(&mut s.borrow_mut()))
+}
+
+fn push(s: &mut State, e: Event) {
+    if s.log.len() < s.log_cap {
+        s.log.push(e)
+    } else if s.log_cap > 0 {
+        s.dropped += 1;
+    }
+}
+
+/// clear counters (except the shadow ledger, which shadows live objects) and the log
+pub fn reset(log_cap: usize) {
+    with(|s| {
+        let (lo, lb) = (s.counters.live_objects, s.counters.live_bytes);
+        s.counters = Counters::default();
+        s.counters.live_objects = lo;
+        s.counters.live_bytes = lb;
+        s.log.clear();
+        s.log_cap = log_cap;
+        s.dropped = 0;
+    })
+}
+
+pub fn counters() -> Counters {
+    with(|s| s.counters.clone())
+}
+
+pub fn take_log() -> (Vec<Event>, u64) {
+    with(|s| (std::mem::take(&mut s.log), s.dropped))
+}
+
+pub(crate) fn ud_call() {
+    with(|s| {
+        s.counters.ud_calls += 1;
+        push(s, Event::UdCall)
+    })
+}
+
+pub(crate) fn tail_iter(run: u64) {
+    with(|s| {
+        s.counters.tail_iters += 1;
+        if run > s.counters.max_tail_run {
+            s.counters.max_tail_run = run
+        }
+        push(s, Event::TailIter(run))
+    })
+}
+
+pub(crate) fn frame(height: usize, entered: bool) {
+    with(|s| {
+        if entered {
+            s.counters.frames += 1;
+            if height > s.counters.max_height {
+                s.counters.max_height = height
+            }
+            push(s, Event::Frame(height))
+        } else {
+            s.counters.depth_rejections += 1;
+            push(s, Event::DepthReject(height))
+        }
+    })
+}
+
+pub(crate) fn alloc(bytes: usize, total: usize, ok: bool) {
+    with(|s| {
+        if ok {
+            s.counters.allocs_ok += 1;
+            if total > s.counters.peak_bytes {
+                s.counters.peak_bytes = total
+            }
+        } else {
+            s.counters.allocs_failed += 1;
+        }
+        if total > s.counters.peak_bytes_incl_failed {
+            s.counters.peak_bytes_incl_failed = total
+        }
+        push(s, Event::Alloc { bytes, total, ok })
+    })
+}
+
+pub(crate) fn dealloc(bytes: usize) {
+    with(|s| {
+        s.counters.deallocs += 1;
+        push(s, Event::Dealloc { bytes })
+    })
+}
+
+pub(crate) fn ledger_new(bytes: usize) {
+    with(|s| {
+        s.counters.live_objects += 1;
+        s.counters.live_bytes += bytes as i128;
+    })
+}
+
+pub(crate) fn ledger_drop(bytes: usize) {
+    with(|s| {
+        s.counters.live_objects -= 1;
+        s.counters.live_bytes -= bytes as i128;
+    })
+}
+
+pub(crate) fn perm(id: &'static str, granted: bool) {
+    with(|s| {
+        if granted {
+            s.counters.perm_granted += 1
+        } else {
+            s.counters.perm_denied += 1
+        }
+        push(s, Event::Perm { id, granted })
+    })
+}
